@@ -209,6 +209,10 @@ def jobs(tier):
                 # data would need a tz-aware span (tz-aware carriers are listed for time *axes*, not for data)
                 continue
             out.append(Carrier(base, time=c))
+    # sub-second timestamps through the carriers that can hold them
+    for base in (c10.RateOfChange(3, frac=True), c08.Climatology(2, [M(None, True, False)], prop="C15", frac=True)):
+        for c in ("us", "ms", "pydt", "ts", "dti", "ser", "ser_utc", "epoch_float"):
+            out.append(Carrier(base, time=c))
     # spans as lists instead of tuples
     out.append(Carrier(c03.GrossRange(n, True, "list"), data="ndarray"))
     if tier == "thorough":
